@@ -14,6 +14,9 @@ var hostile = []uint64{0, 1, 2, 255, 256,
 	1 << 16, 1 << 17, 1 << 18, 1 << 19, 1 << 20, 1 << 21, 1 << 22, 1 << 23, 1 << 24, // measurable allocations
 	1<<31 - 1, 1 << 31, 1 << 32, 1 << 62, 1 << 63, ^uint64(0)}
 
+// maxInputLen caps generated inputs (a seed may be larger; mutations never grow an input beyond it).
+const maxInputLen = 1 << 20
+
 // hostileBytes are written over single bytes (bools, opcodes, versions, tags, kinds).
 var hostileBytes = []byte{0, 1, 2, 3, 4, 5, 6, 7, 8, 0x7f, 0x80, 0xfe, 0xff}
 
@@ -189,7 +192,9 @@ func (m *mut) one(b []byte, other func() []byte) []byte {
 func (m *mut) mutateBytes(b []byte, other func() []byte) []byte {
 	n := []int{0, 1, 1, 1, 1, 1, 1, 1, 1, 1, 1, 1, 2, 2, 2, 2, 2, 3, 3, 3}[m.intn(20, "nmut")]
 	for i := 0; i < n; i++ {
-		b = m.one(b, other)
+		if next := m.one(b, other); len(next) <= maxInputLen {
+			b = next
+		}
 	}
 	return b
 }
@@ -373,9 +378,11 @@ func (m *mut) mutateText(s []byte) (out []byte, shaped bool) {
 	n := []int{0, 1, 1, 1, 1, 1, 1, 1, 2, 2, 2, 3}[m.intn(12, "nmut")]
 	out, shaped = s, true
 	for i := 0; i < n; i++ {
-		var sh bool
-		out, sh = m.textOne(out)
-		shaped = shaped && sh
+		next, sh := m.textOne(out)
+		if len(next) > maxInputLen {
+			break // stacked mutations multiply sizes; inputs stay below 1 MiB
+		}
+		out, shaped = next, shaped && sh
 	}
 	return out, shaped
 }
@@ -592,6 +599,7 @@ func (m *mut) jsonOne(s []byte) (out []byte, shaped bool) {
 		n := []int{2, 3, 64, 65, 256, 1000, 5000}[m.intn(7, "rep")]
 		// the token becomes an array of n copies of itself (well-formed wherever a value may stand)
 		elem := string(s[t.lo:t.hi])
+		n = max(2, min(n, maxInputLen/(len(elem)+1)))
 		m.note("jrepeat@%d*%d", t.lo, n)
 		return splice(s, t.span, []byte("["+strings.Repeat(elem+",", n-1)+elem+"]")), true
 	case k < 92: // whole document
@@ -626,9 +634,11 @@ func (m *mut) mutateJSON(s []byte) (out []byte, shaped bool) {
 	n := []int{0, 1, 1, 1, 1, 1, 1, 1, 2, 2, 2, 3}[m.intn(12, "nmut")]
 	out, shaped = s, true
 	for i := 0; i < n; i++ {
-		var sh bool
-		out, sh = m.jsonOne(out)
-		shaped = shaped && sh
+		next, sh := m.jsonOne(out)
+		if len(next) > maxInputLen {
+			break
+		}
+		out, shaped = next, shaped && sh
 	}
 	return out, shaped
 }
